@@ -537,7 +537,8 @@ def _perm(n, ints):
 # programmatic construction
 
 
-def build(m, resolvers=None, type_resolver=None, use_out_names=False, is_type_of=None):
+def build(m, resolvers=None, type_resolver=None, use_out_names=False, is_type_of=None,
+          incremental=False):
     """GraphQLSchema assembled from type objects (thunks for fields)."""
     from graphql import (GraphQLArgument, GraphQLBoolean, GraphQLDirective, GraphQLEnumType,
                          GraphQLEnumValue, GraphQLField, GraphQLFloat, GraphQLID, GraphQLInputField,
@@ -603,7 +604,13 @@ def build(m, resolvers=None, type_resolver=None, use_out_names=False, is_type_of
     for u in m["unions"]:
         types[u["name"]] = GraphQLUnionType(u["name"], (lambda u=u: [types[n] for n in u["types"]]),
                                             description=u["desc"], resolve_type=type_resolver)
-    directives = list(specified_directives) + [
+    extra = []
+    if incremental:
+        from graphql.type.directives import (GraphQLDeferDirective, GraphQLDisableErrorPropagationDirective,
+                                             GraphQLStreamDirective)
+
+        extra = [GraphQLDeferDirective, GraphQLStreamDirective, GraphQLDisableErrorPropagationDirective]
+    directives = list(specified_directives) + extra + [
         GraphQLDirective(d["name"], d["locations"], args=mk_args(d["args"]),
                          is_repeatable=d["repeatable"], description=d["desc"],
                          deprecation_reason=d.get("dep"))
